@@ -36,6 +36,32 @@ let () =
             let (kind, regs) = parse_regions () in
             if instr <> "-" && ctx <> None then "?"
             else fmt_flips (run_pipeline c os code np i0 i1 ea ctx kind regs)
+          | "Q" ->
+            let arch = nz () in let os = nz () in let code = nz () in let flags = nz () in let np = nz () in
+            let i0 = nz () in let i1 = nz () in let ea = nz () in
+            let ctx = (match parse_ctx () with None -> None | Some (_, l) -> Some l) in
+            let _instr = next () in
+            let dec =
+              (match next () with
+               | "-" -> `None
+               | "U" -> `Unknown
+               | "D" ->
+                 let lea = (next () = "1") in
+                 let n = int_of_string (next ()) in
+                 `Dec (lea, List.init n (fun _ ->
+                         let b = nz () in let i = nz () in let sc = nz () in let d = nz () in (((b, i), sc), d)))
+               | _ -> failwith "dec") in
+            let (kind, regs) = parse_regions () in
+            (match dec with
+             | `Unknown -> "?"
+             | _ ->
+               let d = (match dec with `Dec (lea, ops) -> Some (lea, ops) | _ -> None) in
+               let (adj, flips) = run_q arch os code flags np i0 i1 ea ctx d kind regs in
+               let adjs = (match adj with
+                   | [_] -> "none"
+                   | [k; v] -> (if int_of_z k = 1 then "nc:" else "null:") ^ string_of_z v
+                   | _ -> failwith "adj") in
+               adjs ^ "#" ^ fmt_flips flips)
           | _ -> failwith "kind" in
         print_endline out
       end
